@@ -5,7 +5,7 @@ import json
 import gen
 from histcheck import chain_case
 from props.evalcommon import standard_run, standard_replay
-from wire import go_float_str, from_wire
+from wire import go_float_str, from_wire, to_wire
 
 PID = "C14"
 
@@ -183,7 +183,7 @@ def codec_roundtrip(rep, rng, n):
         vals.append((v, rng.choice(CODECS)))
     enc_cases = [chain_case([{"wrap": {"$value": v, "$encode": f}}], env={}, tail=("outdocs",)) for v, f in vals]
     enc = run_go([to_op(c, i) for i, c in enumerate(enc_cases)])
-    dec_cases, idx = [], []
+    dec_cases, idx, json_texts = [], [], []
     for i, (v, f) in enumerate(vals):
         rep.case(["codec", v, f], True, sample={"codec": f, "value": v} if i < 2 else None)
         rep.count("codec:" + f)
@@ -219,6 +219,24 @@ def codec_roundtrip(rep, rng, n):
             continue
         dec_cases.append(chain_case([{"wrap": {"$value": text, "$decode": f}}], env={}, tail=("outdocs",)))
         idx.append((i, text, kf))
+        if f in ("json", "jsonl"):
+            json_texts.append((v, f, text))
+    # `$encode: json` is INSIDE the model (theorem C14_json_encode_text): the text is the model writer's, byte for byte
+    import jsoncheck
+    from common import run_model
+    from wire import go_float_str
+    mops = []
+    for j, (v, f, text) in enumerate(json_texts):
+        fl = set()
+        jsoncheck.floats_of(v, fl)
+        mops.append({"op": "jsonenc", "id": j, "docs": [to_wire(v)], "jf": {go_float_str(x): jsoncheck.go_json_float(x) for x in fl}})
+    mres = run_model(mops)
+    for j, (v, f, text) in enumerate(json_texts):
+        m = mres.get(j) or {}
+        rep.count("codec:json-text-vs-model")
+        if m.get("ok") != text and len(rep.violations) < 6:
+            rep.violation(f"$encode: {f} text differs from the model's JSON writer: impl={text!r:.120} model={str(m.get('ok'))!r:.120}",
+                          {"value": v, "format": f, "text": text, "model": m})
     # transcode: one map carrying `$value` (text), `$decode: f` and `$encode: g` decodes first and encodes the result
     tr_cases, tr_idx = [], []
     for (i, text, kf) in idx:
